@@ -309,6 +309,8 @@ fn programs() -> Vec<(&'static str, Option<String>)> {
         ("stops", Some("10 PRINT 1\n20 STOP\n30 PRINT 2\n".into())),
         ("last line untokenizable", Some("10 PRINT 1\n20 PRINT \"WORLD\n".into())),
         ("only line untokenizable, no final newline", Some("10 %".into())),
+        // long enough for one LIST to hand over dozens of records in a single call
+        ("forty lines", Some((1..=40).map(|i| format!("{} PRINT {}\n", i * 10, i)).collect::<String>())),
     ]
 }
 
